@@ -108,6 +108,13 @@ pub enum Op {
     Rebind {
         flush_first: bool,
     },
+    /// One operation of a component simulation (meaning depends on the component, see comp.rs).
+    Comp {
+        k: u8,
+        a: u64,
+        b: u64,
+        c: u64,
+    },
 }
 
 #[derive(Clone, Debug, Serialize, Deserialize)]
@@ -145,6 +152,9 @@ pub struct VmConfig {
     /// exceeds a fixed fraction of the heap (C09): an OOM or a growing floor is a violation.
     #[serde(default)]
     pub reclaim_cycles: bool,
+    /// parameters of a component simulation (plan == "comp"; meaning depends on `focus`)
+    #[serde(default)]
+    pub comp: Vec<u64>,
 }
 
 impl Default for VmConfig {
@@ -173,6 +183,7 @@ impl Default for VmConfig {
             final_gcs: 1,
             kf_probe: false,
             reclaim_cycles: false,
+            comp: Vec::new(),
         }
     }
 }
